@@ -1053,6 +1053,14 @@ fn linearizable(
     false
 }
 
+struct NoopWake;
+
+impl std::task::Wake for NoopWake {
+    fn wake(self: Arc<Self>) {}
+}
+
+type PoolFut<'a> = std::pin::Pin<Box<dyn std::future::Future<Output = &'static str> + 'a>>;
+
 impl C12 {
     /// Invariants of the pool contents, checked after every call.
     fn monitor_pool(&self, out: &mut Out, op: &Value, cur: &[(u64, u64)]) {
@@ -1169,6 +1177,121 @@ impl C12 {
                     "remove" => json!({"mode": mode, "cur": pairs_json(&cur)}),
                     _ => json!({"mode": mode}),
                 }
+            }
+            "pool_probe" => {
+                // how many further non-configured peers are admitted? (fresh keys 1000.. are outside `allowed`)
+                let ps = self.pool.as_ref().expect("pool_new first");
+                let before = sorted(ps.pool.current());
+                let mut n = 0u64;
+                while n < 8 && self.rt.block_on(ps.pool.insert(1000 + n, 0)).is_ok() {
+                    n += 1;
+                }
+                for i in 0..n {
+                    self.rt.block_on(ps.pool.remove(&(1000 + i)));
+                }
+                let cur = sorted(ps.pool.current());
+                let extras = before.iter().filter(|e| !ps.allowed.contains(&e.0)).count() as u64;
+                let want = ps.limit.saturating_sub(extras).min(8);
+                if n != want {
+                    out.oracle_fail("pool/quota-probe", &format!("{n} further non-configured peers are admitted, but {extras} of the {} slots are in use (contents {before:?})", ps.limit), self.case_input());
+                }
+                if cur != before {
+                    out.oracle_fail("pool/quota-probe-restore", &format!("contents {before:?} -> {cur:?} after inserting and removing probe keys"), self.case_input());
+                }
+                self.monitor_pool(out, op, &cur);
+                json!({"free": n, "cur": pairs_json(&cur)})
+            }
+            "pool_contended" => {
+                // Forced contention, no threads: hold the sender lock, start the calls and poll each once so that they
+                // queue on the lock in the listed order, release, and poll them to completion in the op's `order`.
+                // The lock is a fair FIFO mutex and each call is one critical section, so the outcome has to be that
+                // of the sequential run in queue order.
+                let ps = self.pool.as_ref().expect("pool_new first");
+                let ops: Vec<Value> = op["ops"].as_array().unwrap().clone();
+                let order: Vec<usize> = op["order"].as_array().map(|a| a.iter().map(|x| x.as_u64().unwrap() as usize).collect()).unwrap_or_else(|| (0..ops.len()).collect());
+                out.count(&format!("pool_contended/k={}", ops.len()));
+                let before: BTreeMap<u64, u64> = ps.pool.current().into_iter().collect();
+                let pool: &Pool<u64, u64> = &ps.pool;
+                let waker = std::task::Waker::from(Arc::new(NoopWake));
+                let mut cx = std::task::Context::from_waker(&waker);
+                let mut res: Vec<Option<&'static str>> = vec![None; ops.len()];
+                let mut early = 0;
+                {
+                    let mut hold = Box::pin(pool.hold_lock());
+                    let std::task::Poll::Ready(guard) = hold.as_mut().poll(&mut cx) else {
+                        out.oracle_fail("harness/error", "the idle pool's lock could not be taken", self.case_input());
+                        return json!({"harness_error": "lock"});
+                    };
+                    let mut futs: Vec<PoolFut> = ops
+                        .iter()
+                        .map(|o| {
+                            let k = o["k"].as_u64().unwrap();
+                            let f: PoolFut = if o["o"].as_str() == Some("i") {
+                                let v = o["v"].as_u64().unwrap();
+                                Box::pin(async move { insert_class(&pool.insert(k, v).await) })
+                            } else {
+                                Box::pin(async move {
+                                    pool.remove(&k).await;
+                                    "done"
+                                })
+                            };
+                            f
+                        })
+                        .collect();
+                    for (i, f) in futs.iter_mut().enumerate() {
+                        if let std::task::Poll::Ready(r) = f.as_mut().poll(&mut cx) {
+                            res[i] = Some(r);
+                            early += 1;
+                        }
+                    }
+                    drop(guard);
+                    drop(hold);
+                    for _ in 0..ops.len() + 2 {
+                        for &i in &order {
+                            if res[i].is_none() {
+                                if let std::task::Poll::Ready(r) = futs[i].as_mut().poll(&mut cx) {
+                                    res[i] = Some(r);
+                                }
+                            }
+                        }
+                    }
+                }
+                if res.iter().any(|r| r.is_none()) {
+                    out.oracle_fail("pool/contended/stuck", &format!("calls did not complete after the lock was released: {res:?}"), self.case_input());
+                    return json!({"hang": true});
+                }
+                let res: Vec<&'static str> = res.into_iter().map(|r| r.unwrap()).collect();
+                let cur = sorted(ps.pool.current());
+                let fin: BTreeMap<u64, u64> = cur.iter().copied().collect();
+                // reference: the sequential specification applied in queue order
+                let mut spec = before.clone();
+                let want: Vec<&'static str> = ops.iter().map(|o| spec_apply(&mut spec, &ps.allowed, ps.limit, o)).collect();
+                if want != res || spec != fin {
+                    out.oracle_fail("pool/contended/not-atomic", &format!("queued calls {ops:?} on {before:?}: results {res:?}, contents {cur:?}; as atomic calls in queue order: {want:?}, {spec:?}"), self.case_input());
+                }
+                // the same, stated per key without reference to an order
+                let keys: BTreeSet<u64> = ops.iter().map(|o| o["k"].as_u64().unwrap()).collect();
+                for k in keys {
+                    let ins: Vec<usize> = (0..ops.len()).filter(|&i| ops[i]["k"].as_u64() == Some(k) && ops[i]["o"].as_str() == Some("i")).collect();
+                    let removes = ops.iter().any(|o| o["k"].as_u64() == Some(k) && o["o"].as_str() == Some("r"));
+                    let oks: Vec<usize> = ins.iter().copied().filter(|&i| res[i] == "ok").collect();
+                    if !removes {
+                        let max_ok = if before.contains_key(&k) { 0 } else { 1 };
+                        if oks.len() > max_ok {
+                            out.oracle_fail("pool/contended/double-admit", &format!("{} concurrent connections of identity {k} were admitted", oks.len() + (1 - max_ok)), self.case_input());
+                        }
+                        if let (Some(v), false) = (fin.get(&k), before.contains_key(&k)) {
+                            if !oks.iter().any(|&i| ops[i]["v"].as_u64() == Some(*v)) || oks.len() != 1 {
+                                out.oracle_fail("pool/contended/entry-not-the-admitted-connection", &format!("identity {k} is registered with connection {v}; admitted calls: {oks:?}"), self.case_input());
+                            }
+                        }
+                        if before.contains_key(&k) && fin.get(&k) != before.get(&k) {
+                            out.oracle_fail("pool/contended/existing-connection-replaced", &format!("identity {k}: {:?} -> {:?}", before.get(&k), fin.get(&k)), self.case_input());
+                        }
+                    }
+                }
+                self.monitor_pool(out, op, &cur);
+                json!({"res": res, "cur": pairs_json(&cur), "_completed_before_release": early})
             }
             x => panic!("bad pool op {x}"),
         }
@@ -1607,6 +1730,33 @@ fn directed_pool() -> Vec<Value> {
     v.push(json!({"op": "pool_new", "reset": true, "allowed": [], "limit": u64::MAX}));
     v.extend([i(0, 1), i(0, 2), i(3, 3), r(0), i(0, 4)]);
     v.push(json!({"op": "pool_batch", "mode": "mixed", "ops": [{"o": "i", "k": 5, "v": 5}, {"o": "r", "k": 3}, {"o": "i", "k": 3, "v": 6}, {"o": "r", "k": 5}, {"o": "i", "k": 0, "v": 7}]}));
+    v.extend(directed_contended());
+    v
+}
+
+/// Calls queued on the held sender lock: is each `PoolWatch` call one critical section?
+fn directed_contended() -> Vec<Value> {
+    let ci = |k: u64, v: u64| json!({"o": "i", "k": k, "v": v});
+    let cr = |k: u64| json!({"o": "r", "k": k});
+    let cont = |ops: Vec<Value>, order: Vec<usize>| json!({"op": "pool_contended", "ops": ops, "order": order});
+    let probe = || json!({"op": "pool_probe"});
+    let i = |k: u64, v: u64| json!({"op": "pool_insert", "k": k, "v": v});
+    let r = |k: u64| json!({"op": "pool_remove", "k": k});
+    let mut v = vec![];
+    // two / three connections of one non-configured identity at once; then the admitted one leaves
+    v.push(json!({"op": "pool_new", "reset": true, "allowed": [1], "limit": 2}));
+    v.extend([probe(), cont(vec![ci(5, 10), ci(5, 11)], vec![1, 0]), probe(), r(5), probe()]);
+    v.extend([cont(vec![ci(6, 20), ci(6, 21), ci(6, 22)], vec![2, 0, 1]), probe(), cont(vec![ci(7, 30), ci(7, 31)], vec![0, 1]), probe(), r(6), r(7), probe()]);
+    // the same for a configured identity (a validator pool)
+    v.push(json!({"op": "pool_new", "reset": true, "allowed": [0, 1, 2, 3], "limit": 0}));
+    v.extend([cont(vec![ci(1, 10), ci(1, 11), ci(1, 12), ci(1, 13)], vec![3, 2, 1, 0]), probe(), r(1), cont(vec![ci(1, 14), ci(4, 15), ci(1, 16)], vec![1, 2, 0]), probe()]);
+    // different identities racing for the last free slot
+    v.push(json!({"op": "pool_new", "reset": true, "allowed": [], "limit": 1}));
+    v.extend([cont(vec![ci(5, 1), ci(6, 2), ci(7, 3)], vec![2, 1, 0]), probe(), r(5), probe(), cont(vec![ci(6, 4), ci(6, 5), ci(7, 6), ci(7, 7)], vec![0, 2, 1, 3]), probe()]);
+    // a reconnect racing with the old connection's removal
+    v.push(json!({"op": "pool_new", "reset": true, "allowed": [2], "limit": 2}));
+    v.extend([i(5, 1), i(2, 2), cont(vec![cr(5), ci(5, 3), ci(5, 4)], vec![2, 1, 0]), probe(), cont(vec![ci(5, 5), cr(5), ci(5, 6), cr(5)], vec![3, 0, 2, 1]), probe(),
+              cont(vec![ci(2, 7), cr(2), ci(2, 8)], vec![1, 0, 2]), probe(), cont(vec![cr(2), cr(2), ci(6, 9), ci(7, 10)], vec![0, 3, 1, 2]), probe(), r(6), r(7), r(2), probe()]);
     v
 }
 
@@ -1682,6 +1832,26 @@ impl Prop for C12 {
                     v.push(json!({"op": "pool_insert", "k": rng.gen_range(0..9u64), "v": val}));
                 } else {
                     v.push(json!({"op": "pool_remove", "k": rng.gen_range(0..9u64)}));
+                }
+            }
+            // forced contention on the held lock (the case continues afterwards: the outcome is determined)
+            for _ in 0..rng.gen_range(0..3) {
+                let k = rng.gen_range(2..=4usize);
+                let hot = rng.gen_range(0..9u64);
+                let ops: Vec<Value> = (0..k)
+                    .map(|_| {
+                        val += 1;
+                        let key = if rng.gen_bool(0.7) { hot } else { rng.gen_range(0..9u64) };
+                        if rng.gen_bool(0.75) { json!({"o": "i", "k": key, "v": val}) } else { json!({"o": "r", "k": key}) }
+                    })
+                    .collect();
+                let mut order: Vec<usize> = (0..k).collect();
+                order.shuffle(&mut rng);
+                v.push(json!({"op": "pool_contended", "ops": ops, "order": order}));
+                v.push(json!({"op": "pool_probe"}));
+                if rng.gen_bool(0.5) {
+                    v.push(json!({"op": "pool_remove", "k": hot}));
+                    v.push(json!({"op": "pool_probe"}));
                 }
             }
             if rng.gen_bool(0.6) {
